@@ -138,13 +138,11 @@ class Report:
 
     # -- finishing --------------------------------------------------------
     def finish(self) -> int:
-        # floors: a rule that matches fewer instances than confirmed by hand is broken
-        for r in self.rules.values():
-            if r.instances < r.floor:
-                raise AnalysisError(
-                    f"rule {r.rid} matched {r.instances} instance(s), below its floor "
-                    f"of {r.floor}: anchors moved or an idiom is no longer recognised"
-                )
+        # floors: a rule that matches fewer instances than confirmed by hand is broken.  A
+        # violation found elsewhere is still reported (below); only a run with nothing new to
+        # report fails as analysis-broken.
+        floor_problems = [f"rule {r.rid} matched {r.instances} instance(s), below its floor of {r.floor}"
+                          for r in self.rules.values() if r.instances < r.floor]
         known = load_known()
         known_keys = {(k["property"], k["rule"], k["construct"]): k for k in known["known"]}
         new: List[Finding] = []
@@ -163,6 +161,8 @@ class Report:
                 )
             else:
                 new.append(f)
+        if floor_problems and not new:
+            raise AnalysisError("; ".join(floor_problems) + ": anchors moved or an idiom is no longer recognised")
         stale = [k for k in known_keys if k[0] == self.prop and k not in seen]
         obligations = sum(r.instances for r in self.rules.values() if r.armed)
         discharged = sum(r.discharged for r in self.rules.values() if r.armed)
@@ -257,6 +257,8 @@ class Report:
                 )
             for f in new:
                 print(f"  FINDING {f.rule} {f.construct} @ {f.where}: {f.message}")
+            for fp in floor_problems:
+                print(f"  NOTE {fp} (the tree differs structurally from the one the rule was instantiated on)")
             print(f"VIOLATION property={self.prop} replay={path}")
             return 1
         return 0
